@@ -280,6 +280,8 @@ func graphCase(id interface{}, c rawCase) map[string]interface{} {
 				ord = cc
 			case "tags":
 				ord = g
+			default:
+				ord = t
 			}
 			if len(mism) < 10 {
 				mism = append(mism, graphMismatch{which, append([]int(nil), ord...), got, pan})
